@@ -1,6 +1,9 @@
 //! C06 — GLM fitting: case generation for the Coq correspondence (step mode + full runs, the inner linear solve and
 //! the matrix inverse recorded like libm calls) and the failure-search oracle (score equations, least squares,
 //! deviance, standard errors, predictions, permutation, convergence status).
+//!
+//! End-to-end family (`CFitE`): the same step cases and full runs WITHOUT the tables of inner calls; the Coq side computes
+//! `solve` / `invert_matrix` with C01's executable models (Model/SolveInst.v), so a scoring step / a whole fit is reproduced whole.
 #![allow(clippy::needless_range_loop, clippy::too_many_arguments)]
 use crate::libm;
 use crate::util::*;
@@ -373,6 +376,13 @@ fn fit_case(pr: &Prob, t: &libm::Table, stbl: Vec<Tm>, itbl: Vec<Tm>, max_iter: 
         fl(&pr.x), fl(&pr.y), Tm::Nat(max_iter as u64), st, fl(xnew), outcome_list(&o.fit), outcome_list(&o.cov), outcome_list(&o.pred)])
 }
 
+/// the same case end to end: no table of inner calls; the Coq side computes solve / invert_matrix with C01's executable model
+fn fit_case_e2e(pr: &Prob, t: &libm::Table, max_iter: usize, start: Option<(&[f64], f64)>, xnew: &[f64], o: &Obs) -> Tm {
+    let st = match start { None => Tm::Raw("None".into()), Some((c, d)) => app("Some", vec![Tm::Tup(vec![fl(c), Tm::F(d)])]) };
+    app("CFitE", vec![libm_table(t), Tm::Raw(FAMS[pr.fam].1.into()), Tm::F(pr.alpha), Tm::F(pr.tol), opt_list(&pr.w), opt_list(&pr.off),
+        fl(&pr.x), fl(&pr.y), Tm::Nat(max_iter as u64), st, fl(xnew), outcome_list(&o.fit), outcome_list(&o.cov), outcome_list(&o.pred)])
+}
+
 /// trajectory of one problem: step cases k -> k+1 until Ok or `kmax`, plus (optionally) the full run
 fn trajectory(cs: &mut Cases, pr: &Prob, kmax: usize, full: bool, tag: &str, r: &mut Rng) {
     let (n, p) = (pr.n, pr.p);
@@ -403,6 +413,7 @@ fn trajectory(cs: &mut Cases, pr: &Prob, kmax: usize, full: bool, tag: &str, r: 
         let nontrivial = k >= 1 && o.fit.is_ok() && o.coef != coef;
         let start = if k == 0 { None } else { Some((&coef[..], pdev)) };
         cs.push(fit_case(pr, &t, stbl.clone(), itbl.clone(), 1, start, &xnew, &o), &format!("{}/step{}{}", tag, if k == 0 { "0" } else { "k" }, if o.fit.is_err() { "/panic" } else if o.ok { "/ok" } else { "/err" }), nontrivial);
+        cs.push(fit_case_e2e(pr, &t, 1, start, &xnew, &o), &format!("e2e-{}/step{}{}", tag, if k == 0 { "0" } else { "k" }, if o.fit.is_err() { "/panic" } else if o.ok { "/ok" } else { "/err" }), nontrivial);
         all_solve.extend(stbl); last_inv = itbl;
         steps = k + 1;
         if o.fit.is_err() || o.ok { break; }
@@ -414,11 +425,13 @@ fn trajectory(cs: &mut Cases, pr: &Prob, kmax: usize, full: bool, tag: &str, r: 
         let o = observe(pr, steps, &xnew);
         let t = libm::stop();
         cs.push(fit_case(pr, &t, all_solve.clone(), last_inv.clone(), steps, None, &xnew, &o), &format!("{}/full{}", tag, if o.ok { "/ok" } else { "/err" }), true);
+        cs.push(fit_case_e2e(pr, &t, steps, None, &xnew, &o), &format!("e2e-{}/full{}", tag, if o.ok { "/ok" } else { "/err" }), true);
         if o.ok {
             libm::start();
             let o2 = observe(pr, steps + 7, &xnew);
             let t2 = libm::stop();
             cs.push(fit_case(pr, &t2, all_solve, last_inv, steps + 7, None, &xnew, &o2), &format!("{}/full-spare-budget", tag), true);
+            cs.push(fit_case_e2e(pr, &t2, steps + 7, None, &xnew, &o2), &format!("e2e-{}/full-spare-budget", tag), true);
         }
     }
 }
@@ -490,5 +503,5 @@ pub fn gen(tier: &str, seed: u64, outdir: &str) {
         }
         trajectory(&mut cs, &pr, 3, i % 2 == 0, "malformed", &mut r);
     }
-    cs.write(outdir, if thorough { 60 } else { 40 }, "six families x alpha in {0,0.1,1,10} x weights none/integer/real x offsets on/off x designs (standardised random, polynomial, indicator, mixed), n in 20..48 mostly and up to 200 (quick) / 500 (thorough), p in 1..6, tolerance 1e-5..1e-14, responses simulated from the model; per problem one step case per iteration k -> k+1 (model's one-step map from the observed state, inner solve/inverse answered from the recorded calls of the crate's own solve/invert_matrix) and full runs with the exact and a spare iteration budget; family tables on vectors of every length residue mod 8 with +-0, +-inf, NaN, subnormals; malformed stream (wrong lengths, not a design matrix, empty data, NaN/inf entries, alpha <= 0 or NaN); non-trivial = a step k >= 1 whose coefficients change; distinct by hash");
+    cs.write(outdir, if thorough { 60 } else { 40 }, "six families x alpha in {0,0.1,1,10} x weights none/integer/real x offsets on/off x designs (standardised random, polynomial, indicator, mixed), n in 20..48 mostly and up to 200 (quick) / 500 (thorough), p in 1..6, tolerance 1e-5..1e-14, responses simulated from the model; per problem one step case per iteration k -> k+1 (model's one-step map from the observed state, inner solve/inverse answered from the recorded calls of the crate's own solve/invert_matrix) and full runs with the exact and a spare iteration budget; every step case and every full run ALSO end to end (tags e2e-*: no table of inner calls, solve / invert_matrix computed inside Coq by C01's executable models, libm still from the recorded table); family tables on vectors of every length residue mod 8 with +-0, +-inf, NaN, subnormals; malformed stream (wrong lengths, not a design matrix, empty data, NaN/inf entries, alpha <= 0 or NaN); non-trivial = a step k >= 1 whose coefficients change; distinct by hash");
 }
